@@ -299,6 +299,12 @@ def demux_scenario(args):
         if qa["state"] != "READY":
             return dict(seed=seed, compat=compat, bad=[], script=s.script, n=0, ready=False)
         sent = []
+        # half of the sessions: the application has no receive callback and pulls with nice_agent_recv_messages_nonblocking
+        # into scattered buffers, some of them EMPTY in the middle of the vector: the contiguous copy the demultiplexer
+        # checks must still be the whole datagram
+        pull = rng.random() < 0.5
+        if pull:
+            s.op("detach A 1 1")
         for L in rng.sample(range(1, 40), 12):
             val = bytes(rng.randrange(33, 127) for _ in range(L))
             body = struct.pack("!HH", 0x0006, L) + val + (b"\0" * ((4 - L % 4) % 4) if padded else b"")
@@ -309,6 +315,19 @@ def demux_scenario(args):
             sent.append(msg.hex())
             s.op(f"inject {qa['remote']} {qa['local']} {msg.hex()}")
             s.op("run 20")
+            if pull:
+                layout = rng.choice(["8,0,2048", "0,4096", "20,0,0,1,4096", "1,1,0,2,4096", "4096", "8,2048", "3,0,65536"])
+                for _ in range(3):
+                    st = s.op(f"recvnb A 1 1 {layout}")[1]
+                    m = re.match(r"ok ret (-?\d+)(?: err \S+)? len (\d+) data (\S+)", st)
+                    if not m or int(m.group(1)) <= 0:
+                        break
+                    got = m.group(3).replace("-", "")      # (the driver prints `-` for an empty buffer)
+                    if got in sent:
+                        bad.append(f"compatibility {compat}, receive vector {{{layout}}}: a well-formed {len(msg)}-byte Binding request from the validated peer "
+                                   f"address was returned by nice_agent_recv_messages_nonblocking as data ({got[:40]}..)")
+                if bad:
+                    break
         s.op("run 200")
         for e in s.events():
             m = re.match(r"t=\d+ A recv 1 1 (\S+)", e)
